@@ -57,6 +57,11 @@ REGISTRY = {
              explanation='PROVED on the program text (syntactic contract checks): the first statement of every public fit is the refit guard `assert not self.is_fitted`, so a second fit is refused '
                          'before any write to the object. BOUNDED: every malformation of the property list injected at a seeded row into valid samples, for the three carvers and the Discretizer '
                          'family, on fresh and on fitted objects: AssertionError and nothing else; values_orders / to_json / transform of a fitted object unchanged by the rejected call.'),
+ 'C10': dict(level='other', P=[], R=['rtc.c10_independence'],
+             explanation='BOUNDED relational contracts on the real fit/transform of the Discretizer family and the carvers: each feature alone vs among the others; reversed feature lists and '
+                         'shuffled columns; PYTHONHASHSEED in {0,1,2,3} (sub-processes); n_jobs in {2,3} with a pool that delivers imap_unordered results in arbitrary (seeded) completion order. '
+                         'Nothing is proved: the pool sites are library-mediated (multiprocessing) and the independence argument is over pandas code.',
+             note='Not covered: the behaviour of the real multiprocessing.Pool (replaced by an in-process pool with arbitrary completion order).'),
  'C13': dict(level='proof', P=[GL_ALL], R=['rtc.c13_grouped_list'],
              explanation='GroupedList: representation invariant WF established by the three constructors and preserved by every mutating method, exact effect of each '
                          'operation on the abstract view (ordered leader -> members), observers equal to their definition over the view: proved for all inputs by engine P '
